@@ -22,8 +22,9 @@ THEOREMS = ['C04_B_expand_exact', 'C04_B_tree_tidy', 'C04_collapse_is_expand', '
             'C04_A_dynamic_model_sound', 'C04_A_dynamic_complete_partial', 'C04_A_dynamic_scan_complete', 'C04_A_dynamic_example',
             'C04_A_packed_dedup_safe', 'C04_A_dynamic_exact', 'C04_A_dynamic_complete', 'C04_A_dynamic_exact_closed',
             'C04_A_dynamic_exact_fwd_refuted', 'C04_A_dynamic_exact_example',
-            'C04_B_cyclic_sound', 'C04_B_cyclic_total', 'C04_B_cyclic_cycle_free_exact_refuted', 'C04_example']
-GEN_DEPS = []
+            'C04_B_cyclic_sound', 'C04_B_cyclic_total', 'C04_B_cyclic_cycle_free_exact_refuted',
+            'C04_walk_conditions_are_source', 'C04_tree_conditions_are_source', 'C04_example']
+GEN_DEPS = ['ExplicitWalk']
 RULE = ('random ambiguous grammars (<=4 non-terminals, <=3 alternatives of length <=3, ?rules, _inlined rules, aliases, '
         '[optional] with placeholders, !keep-all rules, filtered anonymous tokens, EBNF * and +), three lexers (basic, '
         'dynamic, dynamic_complete with overlapping terminals "a","aa",/a+/), inputs = all strings up to a length bound over '
